@@ -15,7 +15,7 @@ PROPERTY = "C18"
 RULE = ("(pairs) all ordered pairs inside per-class value pools that are exhaustive in unit / "
         "alignment / None-ness (25 sizes, 36 points, 36 stretches, 256 paddings, 24 alignments, "
         "81 layouts) plus all cross-class pairs of a mixed pool; (rpairs) Hypothesis layouts "
-        "paired with a copy mutated in at most one component; (immut) as_percentage_of / "
+        "paired with a copy mutated in at most one component, or with one magnitude moved by one ulp / 1e-12 relative / 1e-10 absolute (still unequal); (immut) as_percentage_of / "
         "fit_to_screen on generated values, receiver dumped before/after; (parse) ALL strings of "
         "length <=4 (thorough <=5) over the 15 symbols '015.+-eEpxmct% ' judged by a hand-written "
         "recogniser, plus Hypothesis strings to length 12 and perturbed valid sizes; (print) "
@@ -211,9 +211,33 @@ def rpairs_strategy(tier):
     @st.composite
     def gen(draw):
         a = draw(_layout_spec())
-        mode = draw(st.integers(0, 3))
+        mode = draw(st.integers(0, 4))
         if mode == 0:
             b = draw(_layout_spec())
+        elif mode == 4:
+            # one magnitude differs by a hair (next double, 1e-12 relative, 1e-10 absolute):
+            # still a different value
+            import json
+            import math
+            b = json.loads(json.dumps(a))
+            sizes = []
+
+            def walk(x):
+                if isinstance(x, list):
+                    if x and x[0] == "size":
+                        sizes.append(x)
+                    else:
+                        for y in x:
+                            walk(y)
+            walk(b)
+            if sizes:
+                sz = sizes[draw(st.integers(0, len(sizes) - 1))]
+                v = sz[1]
+                how = draw(st.integers(0, 3))
+                nv = [math.nextafter(v, math.inf), v * (1 + 1e-12), v + 1e-10,
+                      math.nextafter(v, -math.inf) if v > 0 else v + 5e-324][how]
+                if nv != v:
+                    sz[1] = nv
         else:
             import json
             b = json.loads(json.dumps(a))
